@@ -392,6 +392,18 @@ func (r *runner) step(op Op) (e *expect, _ *h.Failure) {
 		}
 		// a channel that is watched again has a new subscription and a new client stream
 		r.closed[op.C], r.delivered[op.C] = false, 0
+	case "startagain":
+		tx := fresh(r.u.tx(op.C, r.m.ch[op.C].newest, nil))
+		var serr error
+		if fl := guarded("StartWatchingSubChannel", func() {
+			_, _, serr = r.w.StartWatchingSubChannel(ctx, r.u.ids[0],
+				channel.SignedState{Params: r.u.params[op.C], State: tx.State, Sigs: tx.Sigs})
+		}); fl != nil {
+			return e, fl
+		}
+		if serr == nil {
+			return e, h.Failf("start-of-watched-channel-succeeded", "StartWatchingSubChannel(%d) returned nil although the sub-channel is already watched", op.C)
+		}
 	case "pubp":
 		tx := fresh(r.u.tx(0, r.m.ch[0].newest, r.m.locked))
 		if fl := guarded("Publish", func() { err = r.pubs[0].Publish(ctx, tx) }); fl != nil {
@@ -813,7 +825,7 @@ func pickOp(m *model, raw rawOp, allowEnd bool) (op Op, ok bool) {
 			cs = append(cs, cand{2, Op{K: "startsub", C: j}})
 		}
 		if m.watched(j) {
-			cs = append(cs, cand{2, Op{K: "pubs", C: j}}, cand{1, Op{K: "stopsub", C: j}})
+			cs = append(cs, cand{2, Op{K: "pubs", C: j}}, cand{1, Op{K: "stopsub", C: j}}, cand{1, Op{K: "startagain", C: j}})
 		}
 	}
 	if len(watched) > 0 {
